@@ -26,3 +26,39 @@ def run_clients(srv, scripts, rng, tool=5, name='kv-conc', prob=None, where='/km
         for t in threads:
             t.join(join_s)
     return results, yi.yields, not any(t.is_alive() for t in threads)
+
+
+def alone_vs_beside(ctx, d, srv, scripts, rng, key, labels=None, name='kv-beside', policies=None, counter='beside_answers_compared'):
+    """Every client's script is first answered alone (on a copy of the store, nobody else connected), then all clients
+    send theirs at the same time against `srv`.  The scripts must be built so that a client's answers do not depend on what
+    the others do (own objects, no identifier allocation): then every answer beside the others equals the answer alone.
+    Reports `key|<label>` for the first differing answer of a client.  Returns False if a thread did not finish."""
+    import shutil
+    from kv import rig
+    alone = []
+    for ident, frames in scripts:
+        tp = d + '/alone.sqlite'
+        shutil.copyfile(srv.db_path, tp)
+        tw = rig.Server(tp, policies=policies) if policies is not None else rig.Server(tp)
+        try:
+            alone.append([tw.send_bytes(q, ident, strict_decode=False).norm() for q in frames])
+        finally:
+            tw.close()
+    results, yields, finished = run_clients(srv, scripts, rng, name=name)
+    if not finished:
+        ctx.unsure('a client thread of a %s history did not finish within 90 s' % key)
+        return False
+    ctx.ev()
+    ctx.count('beside_histories')
+    ctx.count('beside_yields_injected', yields)
+    for ci, (ident, frames) in enumerate(scripts):
+        for j, q in enumerate(frames):
+            ctx.count(counter)
+            r = results[ci][j] if j < len(results[ci]) else None
+            got = ('missing',) if r is None else (('raised', type(r).__name__) if isinstance(r, BaseException) else r.norm())
+            if got != alone[ci][j]:
+                lab = labels[ci][j] if labels else 'request'
+                ctx.violation('%s|%s' % (key, lab), 'request %d (%s) of %r is answered differently while other clients are being served: %s; '
+                              'alone: %s' % (j + 1, lab, ident, str(got)[:300], str(alone[ci][j])[:300]), {'request': q.hex()[:600]})
+                break
+    return True
